@@ -54,6 +54,20 @@ SMALL_2D = [
     np.array([[0.5, 3.0], [0.0, 1.0], [1.0, 0.0], [6.0, 1.5]]),
 ]
 
+_LARGE = {}
+
+
+def large_menu(cols):
+    """four batches of 600 rows on deterministic lattices: reference-like, reference-like from another generator,
+    shifted by 1/30 and by 1/6 of the spread (sizes at which degrees of freedom exceed 1000)"""
+    if cols not in _LARGE:
+        i = np.arange(600)
+        a = np.column_stack([(i * 7919 % 601) / 100.0, (i * 104729 % 599) / 100.0])
+        b = np.column_stack([((i * 6007 + 13) % 601) / 100.0, ((i * 7 + 5) % 599) / 100.0])
+        _LARGE[cols] = [m[:, :cols].copy() for m in (a, b, b + np.array([0.2, 0.0]), a + np.array([1.0, 0.5]))]
+    return _LARGE[cols]
+
+
 PCA_POINTS = [
     [0.0, 0.0],
     [1.0, 2.0],
@@ -228,6 +242,15 @@ class _UniDriver(Driver):
             x = [float(x)]
         elif c == "float32":
             x = np.array([[x]], dtype=np.float32)
+        elif c in ("reuse", "reuse1d"):
+            # the caller keeps ONE float64 buffer per detector, refills it in place and passes the same object every
+            # time (the buffer travels with the detector so that snapshots keep the pair together)
+            buf = getattr(det, "_verif_buf", None)
+            if buf is None:
+                buf = np.zeros((1, 1)) if c == "reuse" else np.zeros(1)
+                det._verif_buf = buf
+            buf[...] = float(x)
+            x = buf
         det.update(X=x)
 
 
@@ -275,6 +298,8 @@ class CUSUMDriver(_UniDriver):
             {"target": 1, "sd_hat": 2, "burn_in": 2, "delta": 0.25, "threshold": 1},
             {"target": None, "sd_hat": None, "burn_in": 2, "delta": 0, "threshold": 1, "direction": "positive"},
             {"target": None, "sd_hat": None, "burn_in": 4, "delta": 0, "threshold": 1},
+            {"target": None, "sd_hat": None, "burn_in": 2, "delta": 0.5, "threshold": 1, "_container": "reuse"},
+            {"target": None, "sd_hat": None, "burn_in": 3, "delta": 0, "threshold": 1, "_container": "reuse1d"},
         ]
 
 
@@ -297,6 +322,7 @@ class PHDriver(_UniDriver):
             {"delta": 0.0, "threshold": 1, "burn_in": 3, "direction": "positive"},
             {"delta": 0.5, "threshold": 0.5, "burn_in": 2, "direction": "negative"},
             {"delta": 0.0, "threshold": 0, "burn_in": 2},
+            {"delta": 0.0, "threshold": 1, "burn_in": 1, "_container": "reuse"},
         ]
 
     def extra_obs(self, det):
@@ -334,6 +360,7 @@ class KdqStreamDriver(Driver):
             {"window_size": 3, "persistence": 0.0, "alpha": 0.6, "bootstrap_samples": 8, "count_ubound": 1, "_container": "int"},
             # integral values arrive as integer arrays, the fractional one as a float array: epochs of different dtypes
             {"window_size": 2, "persistence": 0.0, "alpha": 0.6, "bootstrap_samples": 8, "count_ubound": 1, "_container": "mixed"},
+            {"window_size": 2, "persistence": 0.5, "alpha": 0.6, "bootstrap_samples": 8, "count_ubound": 1, "_container": "reuse"},
         ]
 
     def alphabet(self, p):
@@ -343,6 +370,13 @@ class KdqStreamDriver(Driver):
         c = p.get("_container")
         if c == "mixed":
             det.update(np.array([[int(sym)]]) if float(sym).is_integer() else np.array([[float(sym)]]))
+        elif c in ("reuse", "reuse1d"):
+            buf = getattr(det, "_verif_buf", None)
+            if buf is None:
+                buf = np.zeros((1, 1)) if c == "reuse" else np.zeros(1)
+                det._verif_buf = buf
+            buf[...] = float(sym)
+            det.update(buf)
         elif c == "DataFrame2":  # two named features, the second one a function of the first
             det.update(pd.DataFrame({"a": [float(sym)], "b": [float(sym % 2)]}))
         elif c == "int":
@@ -391,6 +425,8 @@ class _BatchDriver(Driver):
         menu = self.menu
         if p.get("_menu") == "small":
             menu = SMALL_2D if self.menu is BATCH_2D else SMALL_1D
+        elif p.get("_menu") == "large":
+            menu = large_menu(2 if self.menu is BATCH_2D else 1)
         b = menu[sym].copy()
         c = p.get("_container")
         if c == "DataFrame":
@@ -403,18 +439,33 @@ class _BatchDriver(Driver):
 
     def family_configs(self, tier):
         base = self.configs(tier)[0]
-        return [dict(base, _container="DataFrame"), dict(base, _container="list")]
+        return [dict(base, _container="DataFrame"), dict(base, _container="list"), dict(base, _container="reuse")]
+
+    def _reused(self, det, b, p):
+        """_container 'reuse': the caller keeps one buffer per batch shape, refills it in place and passes it again"""
+        if p.get("_container") != "reuse":
+            return b
+        bufs = getattr(det, "_verif_bufs", None)
+        if bufs is None:
+            bufs = {}
+            det._verif_bufs = bufs
+        buf = bufs.get(b.shape)
+        if buf is None:
+            buf = np.zeros(b.shape)
+            bufs[b.shape] = buf
+        buf[...] = b
+        return buf
 
     def make(self, p):
         det = self.cls(**self.ctor(p))
-        det.set_reference(self.batch(self.initial_ref, p))
+        det.set_reference(self._reused(det, self.batch(self.initial_ref, p), p))
         return det
 
     def feed(self, det, sym, p):
         if isinstance(sym, (list, tuple)):
-            det.set_reference(self.batch(sym[1], p))
+            det.set_reference(self._reused(det, self.batch(sym[1], p), p))
         else:
-            det.update(self.batch(sym, p))
+            det.update(self._reused(det, self.batch(sym, p), p))
 
 
 class _HDMDriver(_BatchDriver):
